@@ -40,5 +40,7 @@ def run(chk):
         lines += gen_shapes.make_cases(chk.seed * 1000 + 500 + i, n, KINDS, steps=3, ops=[op, op, op, "closure", "reduction"], pq=0.3, start=cid)
         cid += n
     lines += gen_shapes.make_cases(chk.seed * 7919 + 4, nmix, KINDS, steps=6, pq=0.4, start=cid, mix=(0.5, 0.15, 0.2, 0.15))
+    # targeted cases (see tools/gen_shapes.py make_targeted)
+    lines += gen_shapes.make_targeted(chk.seed * 104729 + 6, 600 if chk.quick else 12000, KINDS)
     out, byid = shapescheck.run_cases(chk, "C04", shapescheck.corpus_cases("C04") + lines, "c04", owner)
     shapescheck.account(chk, out, byid, "C04_* (tightness of closed forms, exactness of the comparisons, best abstraction) + verified equivalence / supremum")
